@@ -232,10 +232,16 @@ def plan(tier, seed):
     n = tier_value(tier, 2000, 150000)
     shards = tier_value(tier, 8, 14)
     per = n // shards
-    return [dict(first=i * per, count=per, budget_s=tier_value(tier, 45, 420)) for i in range(shards)]
+    specs = [dict(first=i * per, count=per, budget_s=tier_value(tier, 45, 420)) for i in range(shards)]
+    # the repository's own tests as one more workload: every step() they take is snapshotted (parameters, step count, gradient shape/dtype)
+    specs.append(dict(kind='repo_tests', files=tier_value(tier, ['tests/preconditioner_test.py', 'tests/base_preconditioner_test.py', 'tests/training_test.py'], ['tests']), budget_s=900))
+    return specs
 
 
 def run_shard(spec, res):
+    if spec.get('kind') == 'repo_tests':
+        from kverif import repotests
+        return repotests.run('C10', spec['files'], res)
     dl = Deadline(spec['budget_s'])
     for i in range(spec['first'], spec['first'] + spec['count']):
         if dl.over():
@@ -247,4 +253,7 @@ def run_shard(spec, res):
 
 def replay(case, res):
     import os
+    if 'repo_tests' in case:
+        from kverif import repotests
+        return repotests.run('C10', case['repo_tests'], res)
     run_case(case_rng(int(os.environ.get('VERIF_SEED', '0')), ID, case['idx']), res, case['idx'])
